@@ -173,5 +173,5 @@ def case_strategy(names, max_steps=3):
 def run(ctx):
     global CTX
     CTX = ctx
-    names = sched.op_names(groups=("core", "storage", "loop"))
-    run_cases(ctx, case_strategy(names), guarded(ctx, check_case), ctx.budget(400, 30000))
+    names = sched.op_names(groups=("core", "storage", "loop"), weights={"make_instr": 0})
+    run_cases(ctx, case_strategy(names), guarded(ctx, check_case), ctx.budget(320, 30000))
